@@ -38,4 +38,9 @@ func init() {
 		Decides:    "structural mechanisms of prune safety: roots are seeded from an unfiltered ref listing (C12-a); no ref/object-store error is dropped while marking (C12-b); every delete lies under a not-marked edge (C12-c); sort.Search hits are bounds- and equality-checked before marks are written (C12-d); commits are deleted last (C12-e).",
 		NotDecided: "that the marked set equals the reachable set for every repository (graph-valued).",
 	}
+	props["C14"] = &propSpec{
+		Rules:      []string{"C14-a", "C14-b", "C14-c"},
+		Decides:    "typestate guard: Commit and Discard test the transaction's status before any mutation (C14-a); Commit's per-branch ref update is skipped for branches already logged under this transaction, so a failed commit can be completed by re-running without duplicating commits (C14-b); no branch mutation is reachable from Discard (C14-c).",
+		NotDecided: "the outcome of every crash point; log contents; atomicity of a single run (the per-branch loop is not one store transaction).",
+	}
 }
